@@ -27,9 +27,6 @@ func lookupExternal(fn *ssa.Function, name string, env *Env) externalFn {
 	if fn.Pkg != nil && short == "init" && fn.Parent() == nil && fn == fn.Pkg.Func("init") {
 		p := fn.Pkg.Pkg.Path()
 		if isRepoPkg(p) {
-			if p == RepoModule+"/loghub" {
-				return noop
-			}
 			return nil
 		}
 		if env.initAllow[p] {
@@ -667,6 +664,7 @@ func init() {
 	reg("os.Getpid", func(fr *frame, args []value) value { return 4242 })
 	reg("os.Getenv", func(fr *frame, args []value) value { return "" })
 	reg("syscall.Getrusage", func(fr *frame, args []value) value { return iface{} })
+	reg(RepoModule+"/loghub.openLogWithFd", func(fr *frame, args []value) value { return (*value)(nil) })
 	reg(RepoModule+"/utils.GetMaxRSS", func(fr *frame, args []value) value { return int64(0) })
 	reg("log.Printf", noop)
 	reg("log.Println", noop)
